@@ -1,6 +1,8 @@
 """R9 - reader for the subset of the DOT language that graphviz.Digraph.source emits:
 nested `subgraph` blocks, graph attribute statements, node statements with attribute lists,
-edge statements `a:"p" -> b:"q" [..]`, quoted strings and HTML strings `<...>` (balanced)."""
+edge statements `a:"p" -> b:"q" [..]`, default-attribute statements (`node [..]`, `edge [..]`,
+`graph [..]`: they apply to what is created after them in that graph and its subgraphs), quoted
+strings and HTML strings `<...>` (balanced)."""
 
 from __future__ import annotations
 
@@ -106,8 +108,9 @@ def parse(src: str) -> Graph:
             port = take()[1]
         return node, port
 
-    def block(name):
+    def block(name, inherited=None):
         g = Graph(name)
+        defaults = {k: dict(v) for k, v in (inherited or {"node": {}, "edge": {}, "graph": {}}).items()}
         take("{")
         while True:
             t = peek()
@@ -119,7 +122,15 @@ def parse(src: str) -> Graph:
             if t == ("id", "subgraph"):
                 take()
                 nm = take()[1] if peek()[0] != "{" else None
-                g.subgraphs.append(block(nm))
+                g.subgraphs.append(block(nm, defaults))
+                continue
+            if t[0] == "id" and t[1].lower() in ("node", "edge", "graph") and peek(1)[0] == "[":
+                # keyword (unquoted): default attributes, not a node called "edge"
+                take()
+                upd = attr_list()
+                if t[1].lower() == "graph":
+                    g.attrs.update(upd)
+                defaults[t[1].lower()].update(upd)
                 continue
             if t[0] not in ("id", "str"):
                 raise DotError(f"unexpected token {t}")
@@ -133,10 +144,10 @@ def parse(src: str) -> Graph:
                 take("->")
                 b = endpoint()
                 attrs = attr_list() if peek()[0] == "[" else {}
-                g.edges.append((a[0], a[1], b[0], b[1], attrs))
+                g.edges.append((a[0], a[1], b[0], b[1], {**defaults["edge"], **attrs}))
             else:
                 attrs = attr_list() if peek()[0] == "[" else {}
-                g.nodes.append((a[0], attrs))
+                g.nodes.append((a[0], {**defaults["node"], **attrs}))
 
     first = take()
     if first[1] not in ("digraph", "graph"):
